@@ -181,7 +181,127 @@ func post_unitType_conn(res0 uint8) bool { return res0 == typeConn && typeConn !
 // @ verify (Ban).Key post=post_Ban_Key props=C04,C14
 func post_Ban_Key(e Ban, res0 string) bool { return res0 == string(e) }
 
-// DecodeState and State.Encode are NOT under contract: both build a map[uint8]crdt.Volatile (a map whose values are
-// structs), which is outside the verifier's map model (scalar, string, pointer and interface values only). Two
-// seeded changes that live exactly there (a decoded set of one type dropped; an Encode cache that goes stale when
-// Merge trims a payload in place) are therefore MISSED - recorded as such under /verif/seeded/C04c and C13c.
+// DecodeState (C04, "through how many encode/decode hops"): whatever set the payload carried for a type is the set
+// the decoded state holds for that type - for EVERY type in the payload (none is dropped or swapped for an empty one).
+// The wire decoding itself (snappy + kelindar/binary, reflection) is outside: `decoded` is whatever it produced.
+// @ verify DecodeState post=post_DecodeState_sets props=C04
+// @ loop DecodeState 0 inv inv_DecodeState modifies=*
+// @ assume github.com/golang/snappy.Decode iface for=DecodeState
+// @ assume github.com/kelindar/binary.Unmarshal iface modifies=v for=DecodeState
+func specDecodedKept(out *State, decoded map[uint8]crdt.Volatile, k uint8) bool {
+	if !vs.Has(out.subsets, k) {
+		return false
+	}
+	set, ok := out.subsets[k].(*crdt.Volatile)
+	return ok && set != nil && vs.SameMap(crdt.SpecDataOf(set), crdt.SpecDataOfV(decoded[k]))
+}
+func inv_DecodeState(out *State, decoded map[uint8]crdt.Volatile) bool {
+	return out != nil && out.subsets != nil && vs.ForallKey(decoded, func(k uint8) bool {
+		return !vs.Ranged(decoded, k) || specDecodedKept(out, decoded, k)
+	})
+}
+func post_DecodeState_sets(res0 *State, res1 error) bool {
+	u := vs.TraceFind("binary.Unmarshal")
+	if u < 0 {
+		return true
+	}
+	decoded := *vs.TraceArg[*map[uint8]crdt.Volatile](u, 1)
+	return res0 != nil && vs.ForallKey(decoded, func(k uint8) bool {
+		return !vs.Has(decoded, k) || specDecodedKept(res0, decoded, k)
+	})
+}
+
+// State.Encode (C13 "the payload finally sent carries every update", C04 "through how many encode/decode hops"):
+// every call serialises the sets the state holds AT THAT CALL - one marshalling of a map that has, for every event
+// type of the state, that type's current set - and returns the compression of exactly those bytes.
+// (Stronger than the property in one respect, by construction: a payload kept from an earlier call is refused even
+// if it could be shown to be still current; kelindar/binary and snappy are outside, by name only.)
+func pre_State_Encode(st *State) bool {
+	return st != nil && st.subsets != nil && vs.ForallKey(st.subsets, func(k uint8) bool {
+		if !vs.Has(st.subsets, k) {
+			return true
+		}
+		if st.durable {
+			d, ok := st.subsets[k].(*crdt.Durable)
+			return ok && d != nil
+		}
+		v, ok := st.subsets[k].(*crdt.Volatile)
+		return ok && v != nil
+	})
+}
+
+// @ verify (*State).Encode pre=pre_State_Encode post=post_State_Encode_once,post_State_Encode_sets props=C13,C04
+// @ loop (*State).Encode 0 inv inv_State_Encode_durable modifies=*
+// @ loop (*State).Encode 1 inv inv_State_Encode_volatile modifies=*
+// @ assume github.com/kelindar/binary.Marshal iface for=Encode
+// @ assume github.com/golang/snappy.Encode iface for=Encode
+func specEncodedDurable(st *State, subsets map[uint8]crdt.Durable, k uint8) bool {
+	d, ok := st.subsets[k].(*crdt.Durable)
+	return ok && d != nil && vs.Has(subsets, k) && crdt.SpecSameDurable(subsets[k], d)
+}
+func specEncodedVolatile(st *State, subsets map[uint8]crdt.Volatile, k uint8) bool {
+	v, ok := st.subsets[k].(*crdt.Volatile)
+	return ok && v != nil && vs.Has(subsets, k) && vs.SameMap(crdt.SpecDataOfV(subsets[k]), crdt.SpecDataOf(v))
+}
+func inv_State_Encode_durable(st *State, subsets map[uint8]crdt.Durable) bool {
+	return pre_State_Encode(st) && st.durable && vs.TraceLen() == 0 && vs.ForallKey(st.subsets, func(k uint8) bool {
+		return !vs.Ranged(st.subsets, k) || specEncodedDurable(st, subsets, k)
+	})
+}
+func inv_State_Encode_volatile(st *State, subsets map[uint8]crdt.Volatile) bool {
+	return pre_State_Encode(st) && !st.durable && vs.TraceLen() == 0 && vs.ForallKey(st.subsets, func(k uint8) bool {
+		return !vs.Ranged(st.subsets, k) || specEncodedVolatile(st, subsets, k)
+	})
+}
+func post_State_Encode_once(st *State, res0 [][]byte) bool {
+	m, z := vs.TraceFind("binary.Marshal"), vs.TraceFind("snappy.Encode")
+	return vs.TraceLen() == 2 && m == 0 && z == 1 &&
+		vs.SameBytes(vs.TraceArg[[]byte](z, 1), vs.TraceRet[[]byte](m, 0)) &&
+		len(res0) == 1 && vs.SameBytes(res0[0], vs.TraceRet[[]byte](z, 0))
+}
+func post_State_Encode_sets(st *State, res0 [][]byte) bool {
+	if vs.TraceFind("binary.Marshal") != 0 {
+		return false
+	}
+	if st.durable {
+		subsets := vs.TraceArg[map[uint8]crdt.Durable](0, 0)
+		return vs.ForallKey(st.subsets, func(k uint8) bool {
+			return !vs.Has(st.subsets, k) || specEncodedDurable(st, subsets, k)
+		})
+	}
+	subsets := vs.TraceArg[map[uint8]crdt.Volatile](0, 0)
+	return vs.ForallKey(st.subsets, func(k uint8) bool {
+		return !vs.Has(st.subsets, k) || specEncodedVolatile(st, subsets, k)
+	})
+}
+
+// NewState (C14 "still in force after the broker restarts on the same state directory"; C04): a state has exactly one
+// set per event type; with a directory every set is durable and the BAN set is the one opened on the file that
+// fileOf derives from that directory alone (the same directory gives the same file on every start); without a
+// directory nothing is durable. crdt.New and path.Join by name only.
+// @ verify NewState post=post_NewState_sets,post_NewState_banfile props=C14,C04
+// @ assume github.com/emitter-io/emitter/internal/event/crdt.New iface for=NewState
+// @ assume path.Join iface for=NewState
+func post_NewState_sets(dir string, res0 *State) bool {
+	if res0 == nil || res0.subsets == nil || res0.durable != (dir != "") || vs.TraceCount("crdt.New") != 3 {
+		return false
+	}
+	a, b, c := vs.TraceFindNth("crdt.New", 0), vs.TraceFindNth("crdt.New", 1), vs.TraceFindNth("crdt.New", 2)
+	return vs.Has(res0.subsets, typeSub) && vs.Has(res0.subsets, typeBan) && vs.Has(res0.subsets, typeConn) &&
+		vs.TraceArg[bool](a, 0) == (dir != "") && vs.TraceArg[bool](b, 0) == (dir != "") && vs.TraceArg[bool](c, 0) == (dir != "") &&
+		res0.subsets[typeSub] == vs.TraceRet[crdt.Map](a, 0) && res0.subsets[typeBan] == vs.TraceRet[crdt.Map](b, 0) &&
+		res0.subsets[typeConn] == vs.TraceRet[crdt.Map](c, 0)
+}
+func post_NewState_banfile(dir string, res0 *State) bool {
+	b := vs.TraceFindNth("crdt.New", 1)
+	if b < 0 {
+		return false
+	}
+	file := vs.TraceArg[string](b, 1)
+	if dir == ":memory:" {
+		return file == ":memory:" && vs.TraceCount("path.Join") == 0
+	}
+	j := vs.TraceFind("path.Join")
+	return j >= 0 && j < b && vs.TraceCount("path.Join") == 1 && file == vs.TraceRet[string](j, 0) &&
+		len(vs.TraceArg[[]string](j, 0)) == 2 && vs.TraceArg[[]string](j, 0)[0] == dir && vs.TraceArg[[]string](j, 0)[1] == "ban.db"
+}
